@@ -174,10 +174,11 @@ func (o *ObjectSchema) unserializeInlinedDataToMap(data any) (map[string]any, er
 	for fieldName, property := range o.Properties() {
 		unserializedProperty, err := property.Unserialize(data)
 		if err != nil {
-			return nil,
-				fmt.Errorf("error while unserializing single inlined property %s for object %s (%q);"+
+			return nil, &ConstraintError{
+				Message: fmt.Sprintf("error while unserializing single inlined property %s for object %s (%q);"+
 					"fix the property or specify the object as a map",
-					fieldName, o.ID(), err)
+					fieldName, o.ID(), err),
+			}
 		}
 		return map[string]any{
 			fieldName: unserializedProperty,
